@@ -1,4 +1,6 @@
 (* C18 — wire codec: s-expression <-> operation sequences / observations. *)
+(* DISPATCH 1800 c18_run *)
+(* DISPATCH 1801 c18_spec *)
 From Coq Require Import List ZArith NArith.
 From MV Require Import Common.Sx C18.Model C18.Spec.
 Import ListNotations.
